@@ -125,6 +125,10 @@ class CBloomFilter(bitcoin.core.serialize.Serializable):
         if isinstance(elem, bitcoin.core.COutPoint):
             elem = elem.serialize()
 
+        if len(self.vData) == 0:
+            # An empty filter (as can arrive from the wire) has no bits to set
+            return
+
         if len(self.vData) == 1 and self.vData[0] == 0xff:
             return
 
@@ -140,6 +144,10 @@ class CBloomFilter(bitcoin.core.serialize.Serializable):
         """
         if isinstance(elem, bitcoin.core.COutPoint):
             elem = elem.serialize()
+
+        if len(self.vData) == 0:
+            # Avoid dividing by zero: like Bitcoin Core, an empty filter matches everything
+            return True
 
         if len(self.vData) == 1 and self.vData[0] == 0xff:
             return True
